@@ -359,7 +359,12 @@ def oracleFuse (c : Case) (doC03 : Bool) : Option (List String) :=
     some (check "C02.simplex_wf" (wfSimplex (64 * n * e) b u)
       ++ check "C02.base_rate_sum" (decide (absQ (sumQ a - 1) ≤ 64 * n * e))
       ++ check "C02.base_rate_between" (betweenL (4 * e) a a1 a2)
-      ++ (if same then check "C02.shared_base_rate_unchanged" (a == a1) else []))
+      ++ (if same then check "C02.shared_base_rate_unchanged" (a == a1) else [])
+      -- "... and equals them when the operands share a base rate", entry by entry and by VALUE (two separate vectors): an entry on
+      -- which the operands agree exactly is taken over exactly (the `==` shortcut of compute_base_rate; (x + x)/2 = x in the
+      -- two-dogmatic arm); seeded variant C02_r5B dropped the shortcut in the Wgh branch: 1 ulp off on non-dyadic entries
+      ++ check "C02.equal_entries_unchanged"
+          ((List.zip a (List.zip a1 a2)).all fun t => !(decide (t.2.1 = t.2.2)) || decide (t.1 = t.2.1)))
   else
     -- operands in the tolerance bands (0, eps] / [1-2eps, 1) are classified by the guards: excluded
     let band (v : Rat) : Bool := (decide (0 < v) && decide (v ≤ e)) || (decide (1 - 2 * e ≤ v) && decide (v < 1))
@@ -824,6 +829,14 @@ def oracleC10 (c : Case) : Option (List String) :=
       -- a vacuous-by-guard input (or intermediate) is replaced by the vacuous opinion: allow 2eps·k
       let slack := τ + 2 * e * k
       check "C10.formula_belief" (closeList slack b' (b.map (· * t)))
+        -- "every belief mass multiplied by t", read RELATIVELY for a single discount of an operand that is not vacuous by the guard:
+        -- b_i * t is one correctly rounded multiplication (relative error eps/2); 4 eps leaves room for a renormalising rewrite.
+        -- An absolute tolerance cannot see a trust level below eps being treated as zero (seeded variant C10_r5B: fast path
+        -- is_zero(t) -> vacuous on the owned receiver: b' = 0 for t*b = 3e-8)
+        ++ (if k == 1 && decide (u < 1 - 2 * e) then
+              check "C10.formula_belief_relative"
+                ((List.zip b' b).all fun p => decide (absQ (p.1 - p.2 * t) ≤ 4 * e * absQ (p.2 * t) + e * e * e * e * e))
+            else [])
         ++ check "C10.formula_uncertainty" (closeQ slack u' (1 - t * (1 - u)))
         ++ check "C10.wf" (wfSimplex (τ * (n + 1)) b' u')
         ++ (if simplexOnly then [] else
